@@ -89,6 +89,8 @@ def plan(prop):
         obs.append((core, lambda ctx: co.ob_route_level_gates(ctx, 2, 1, multi_in_tour=True)))
         obs.append((core, lambda ctx: co.ob_route_level_gates(ctx, 0, 1, n_places=2)))
     if prop == 'C01':
+        import pragmatic_obligations as po
+        obs.append(('vrp-pragmatic', lambda ctx: po.ob_read_locks(ctx)))
         for n in ((2,) if Q else (2, 3)):
             obs.append((core, lambda ctx, n=n: co.ob_skills_gate(ctx, n)))
         for m_, pos in (((2, 'any'), (2, 'departure'), (2, 'arrival'), (2, 'fixed')) if Q else ((1, 'any'), (2, 'any'), (3, 'any'), (1, 'departure'), (2, 'departure'), (1, 'arrival'), (2, 'arrival'), (1, 'fixed'), (2, 'fixed'))):
